@@ -84,6 +84,10 @@ def run(ctx):
             cases.append(base(f"shrink-by-{by}-{tr}-1stream", transport=tr, streams=1, resume=False, shrink="d/b.bin", shrink_by=by, _kind="shrink"))
         cases.append(base(f"vanish-{tr}", transport=tr, vanish="d/b.bin", _kind="vanish"))
         cases.append(base(f"obstruct-file-{tr}", transport=tr, obstruct="a.bin", _kind="obstruct"))
+        # a regular file stands where the tree has a directory: one that holds files, an empty one, a nested empty one
+        cases.append(base(f"obstruct-by-file-parent-{tr}", transport=tr, obstruct_file="d", _kind="obstruct"))
+        for ed in ("spool", "d/empty", "x/y/z"):
+            cases.append(base(f"obstruct-by-file-emptydir-{ed.replace('/', '_')}-{tr}", transport=tr, dirs=[ed], obstruct_file=ed, _kind="obstruct"))
         cases.append(base(f"obstruct-dir-{tr}", transport=tr, files=[{"p": "d", "n": 10, "s": 1}, {"p": "e.bin", "n": 40, "s": 2}], obstruct="d/sub", _kind="obstruct"))
     rc, results = G.run_xfer(ctx, exe, "faults", cases, timeout=1700)
     if rc != 0 or len(results) != len(cases):
@@ -115,7 +119,7 @@ def run(ctx):
         "evaluations": len(cases), "distinct_nontrivial": effective,
         "rule": "2 files / 5 chunks over netsim with 2 data streams: graceful close by the writer or by the reader and abrupt loss at byte positions (stride 7 quick / every byte thorough) of the control stream (both directions) "
                 "and of each data stream; bit flips in every CRC/payload byte position (stride 3 / 1) of a 4-chunk single-stream transfer; cancellation of sender or receiver at 1..13 ms (quick) of a 670 KB transfer over mock and netsim, "
-                "and while idle (resume grace, stalled acknowledgements); source file halved / deleted after the scan; output path obstructed by a directory. Each side closes its connection with code 0 when its function returns, as the app does. "
+                "and while idle (resume grace, stalled acknowledgements); source file halved / deleted after the scan; output path obstructed by a directory / a directory of the tree (with files, empty, nested empty) obstructed by a regular file. Each side closes its connection with code 0 when its function returns, as the app does. "
                 "Oracle: no hang; receiver ok => tree identical; sender ok => tree identical. non-trivial = runs in which the fault made at least one endpoint fail",
         "samples": [cases[0]["name"], cases[len(cases) // 2]["name"], cases[-1]["name"]],
         "kinds": kinds, "outcomes": outcomes,
